@@ -36,6 +36,15 @@ pub struct HRule {
 
 impl HRule {
     pub fn grl(&self, name: &str) -> String {
+        if encoding() != 0 {
+            let atom = |i: usize| format!("F.{} == {}", FIELDS[i], enc_text_f(i, true));
+            let body = match self.body {
+                Body::One(x) => atom(x),
+                Body::And(x, y) => format!("{} && {}", atom(x), atom(y)),
+                Body::Or(x, y) => format!("{} || {}", atom(x), atom(y)),
+            };
+            return format!("rule \"{}\" {{ when {} then F.{} = {}; }}", name, body, FIELDS[self.head], enc_text_f(self.head, self.value));
+        }
         let atom = |i: usize| format!("F.{} == true", FIELDS[i]);
         let body = match self.body {
             Body::One(x) => atom(x),
@@ -45,13 +54,13 @@ impl HRule {
         format!("rule \"{}\" {{ when {} then F.{} = {}; }}", name, body, FIELDS[self.head], self.value)
     }
     pub fn build(&self, name: &str) -> Rule {
-        let atom = |i: usize| ConditionGroup::single(Condition::new(format!("F.{}", FIELDS[i]), Operator::Equal, Value::Boolean(true)));
+        let atom = |i: usize| ConditionGroup::single(Condition::new(format!("F.{}", FIELDS[i]), Operator::Equal, enc_value_f(i, true)));
         let body = match self.body {
             Body::One(x) => atom(x),
             Body::And(x, y) => ConditionGroup::and(atom(x), atom(y)),
             Body::Or(x, y) => ConditionGroup::or(atom(x), atom(y)),
         };
-        Rule::new(name.to_string(), body, vec![ActionType::Set { field: format!("F.{}", FIELDS[self.head]), value: Value::Boolean(self.value) }])
+        Rule::new(name.to_string(), body, vec![ActionType::Set { field: format!("F.{}", FIELDS[self.head]), value: enc_value_f(self.head, self.value) }])
     }
     fn body_fields(&self) -> Vec<usize> {
         match self.body {
@@ -193,11 +202,70 @@ impl Cfg {
     }
 }
 
+/// How the truth of a field is written in rules, facts and goals: 0 = the booleans true / false (the default),
+/// 1 = the integers 5 / 0, 2 = the strings "on" / "off", 3 = the strings "a >= b" / "no" (operator characters inside a
+/// string literal). The Horn
+/// structure and its closure are the same under every encoding.
+static ENCODING: std::sync::atomic::AtomicU8 = std::sync::atomic::AtomicU8::new(0);
+
+pub fn encoding() -> u8 {
+    ENCODING.load(std::sync::atomic::Ordering::SeqCst)
+}
+
+pub fn set_encoding(e: u8) {
+    ENCODING.store(e, std::sync::atomic::Ordering::SeqCst)
+}
+
+/// encoding 4: the fields in this mask (fields that no rule derives) are written as integers, all others as booleans
+static INT_FIELDS: std::sync::atomic::AtomicU32 = std::sync::atomic::AtomicU32::new(0);
+
+fn int_typed(field: usize) -> bool {
+    encoding() == 4 && INT_FIELDS.load(std::sync::atomic::Ordering::SeqCst) & (1 << field) != 0
+}
+
+pub fn enc_value_f(field: usize, v: bool) -> Value {
+    if encoding() == 4 {
+        return if int_typed(field) { Value::Integer(if v { 5 } else { 0 }) } else { Value::Boolean(v) };
+    }
+    enc_value(v)
+}
+
+pub fn enc_text_f(field: usize, v: bool) -> String {
+    if encoding() == 4 {
+        return if int_typed(field) { (if v { "5" } else { "0" }).to_string() } else { v.to_string() };
+    }
+    enc_text(v)
+}
+
+pub fn enc_value(v: bool) -> Value {
+    match (encoding(), v) {
+        (1, true) => Value::Integer(5),
+        (1, false) => Value::Integer(0),
+        (2, true) => Value::String("on".to_string()),
+        (2, false) => Value::String("off".to_string()),
+        (3, true) => Value::String("a >= b".to_string()),
+        (3, false) => Value::String("no".to_string()),
+        (_, b) => Value::Boolean(b),
+    }
+}
+
+pub fn enc_text(v: bool) -> String {
+    match (encoding(), v) {
+        (1, true) => "5".to_string(),
+        (1, false) => "0".to_string(),
+        (2, true) => "\"on\"".to_string(),
+        (2, false) => "\"off\"".to_string(),
+        (3, true) => "\"a >= b\"".to_string(),
+        (3, false) => "\"no\"".to_string(),
+        (_, b) => b.to_string(),
+    }
+}
+
 pub fn mk_facts(init: u32, nf: usize) -> Facts {
     let f = Facts::new();
     for i in 0..nf {
         if init & (1 << i) != 0 {
-            f.set(&format!("F.{}", FIELDS[i]), Value::Boolean(true));
+            f.set(&format!("F.{}", FIELDS[i]), enc_value_f(i, true));
         }
     }
     f
@@ -235,7 +303,11 @@ pub fn run_case(c: &Case, mode: Mode) -> Verdict {
     let Some(cl) = closure(c.prog, c.init, c.nf) else { return Verdict::Undefined };
     let (y, v) = c.goal;
     let truth = !c.cfg.quoted_goal && cl.get(&y) == Some(&v);
-    let q = if c.cfg.quoted_goal { format!("F.{} == \"{}\"", FIELDS[y], v) } else { format!("F.{} == {}", FIELDS[y], v) };
+    let q = if c.cfg.quoted_goal { format!("F.{} == \"{}\"", FIELDS[y], v) } else { format!("F.{} == {}", FIELDS[y], enc_text_f(y, v)) };
+    if int_typed(y) {
+        // a goal on an integer-typed field is the known finding C09-K1; this encoding is about integer *conditions*
+        return Verdict::Undefined;
+    }
     let mut facts = mk_facts(c.init, c.nf);
     let before = facts_map(&facts);
     let kb = c.kb.clone();
@@ -259,11 +331,18 @@ pub fn run_case(c: &Case, mode: Mode) -> Verdict {
     if cfg.max_solutions > 1 {
         tags.push("max_solutions_gt_1".into());
     }
+    match encoding() {
+        1 => tags.push("truth_written_as_integer".into()),
+        2 => tags.push("truth_written_as_string".into()),
+        3 => tags.push("truth_written_as_string_with_operator_characters".into()),
+        4 => tags.push("underived_fields_written_as_integers".into()),
+        _ => {}
+    }
     let h = height(c.prog, c.init, c.nf, y, v);
     match mode {
         Mode::Soundness => {
             if res.provable {
-                let held = !cfg.quoted_goal && facts.get(&format!("F.{}", FIELDS[y])) == Some(Value::Boolean(v));
+                let held = !cfg.quoted_goal && facts.get(&format!("F.{}", FIELDS[y])) == Some(enc_value_f(y, v));
                 if !truth {
                     return Verdict::Bad { class: "provable_but_goal_false_in_closure", detail: format!("{} reports `{}` provable, but the forward closure of the rules on the initial facts is {:?}", cfg.name(), q, cl), tags };
                 }
@@ -316,7 +395,9 @@ fn describe(prog: &[HRule], nf: usize, init: u32, goal: (usize, bool), cfg: Cfg,
         "fields": nf,
         "initial_true": (0..nf).filter(|i| init & (1 << i) != 0).map(|i| format!("F.{}", FIELDS[i])).collect::<Vec<_>>(),
         "init": init,
-        "goal": format!("F.{} == {}", FIELDS[goal.0], goal.1),
+        "goal": format!("F.{} == {}", FIELDS[goal.0], enc_text(goal.1)),
+        "encoding": encoding(),
+        "int_fields": INT_FIELDS.load(std::sync::atomic::Ordering::SeqCst),
         "goal_idx": [goal.0, goal.1 as usize],
         "config": {"strategy": cfg.strategy, "max_depth": cfg.max_depth, "max_solutions": cfg.max_solutions, "with_rete": cfg.with_rete, "quoted_goal": cfg.quoted_goal},
         "via_grl": via_grl,
@@ -412,6 +493,10 @@ fn families() -> Vec<(String, Vec<HRule>, usize)> {
     out.push(("diamond".into(), vec![one(0, 1, true), one(0, 2, true), HRule { body: Body::And(1, 2), head: 3, value: true }], 4));
     out.push(("diamond_or".into(), vec![one(0, 1, true), one(0, 2, true), HRule { body: Body::Or(1, 2), head: 3, value: true }], 4));
     out.push(("shared_subgoal".into(), vec![one(0, 1, true), HRule { body: Body::And(1, 0), head: 2, value: true }, HRule { body: Body::And(1, 2), head: 3, value: true }], 4));
+    // a conjunct that already holds (never derived) written before / after a conjunct that has to be derived
+    out.push(("leaf_conjunct_first".into(), vec![one(0, 1, true), HRule { body: Body::And(0, 1), head: 3, value: true }], 4));
+    out.push(("leaf_conjunct_first_two_leaves".into(), vec![one(2, 1, true), HRule { body: Body::And(0, 1), head: 3, value: true }], 4));
+    out.push(("leaf_conjunct_last_two_leaves".into(), vec![one(2, 1, true), HRule { body: Body::And(1, 0), head: 3, value: true }], 4));
     out.push(("dead_end_first".into(), vec![one(4, 3, true), one(0, 1, true), one(1, 3, true)], 5));
     out.push(("wrong_value_first".into(), vec![one(0, 3, false), one(1, 0, true)], 4));
     out.push(("subgoal_proved_parent_fails".into(), vec![one(0, 3, false), one(1, 0, true), one(2, 1, true)], 4));
@@ -506,9 +591,37 @@ pub fn run_mode(opts: &Opts, mode: Mode) -> Vec<Report> {
             total.tag(&fname);
             run_program(&prog, nf, &cfgs, true, mode, &mut total, &mut nt);
         }
+        // the same families with the truth of a field written as an integer / as a string with operator characters
+        // (quoted-goal configurations are boolean-only)
+        let plain: Vec<Cfg> = cfgs.iter().copied().filter(|c| !c.quoted_goal).collect();
+        for enc in [1u8, 2, 3] {
+            set_encoding(enc);
+            for (fname, prog, nf) in families() {
+                if quick && !(fname.starts_with("chain2") || fname.starts_with("chain3") || fname == "diamond" || fname == "shared_subgoal" || fname == "dead_end_first" || fname == "wrong_value_first" || fname.starts_with("leaf_conjunct")) {
+                    continue;
+                }
+                for via_grl in [true, false] {
+                    run_program(&prog, nf, &plain, via_grl, mode, &mut total, &mut nt);
+                }
+            }
+        }
+        // encoding 4: only the fields no rule derives are integers (so integer conditions are only ever checked against
+        // the initial facts), heads and goals stay boolean
+        set_encoding(4);
+        for (fname, prog, nf) in families() {
+            if quick && !(fname == "diamond" || fname == "shared_subgoal" || fname == "eight_rules" || fname.starts_with("chain2") || fname == "dead_end_first" || fname.starts_with("leaf_conjunct")) {
+                continue;
+            }
+            let derived: u32 = prog.iter().fold(0, |m, r| m | (1 << r.head));
+            INT_FIELDS.store(!derived & ((1u32 << nf) - 1), std::sync::atomic::Ordering::SeqCst);
+            for via_grl in [true, false] {
+                run_program(&prog, nf, &plain, via_grl, mode, &mut total, &mut nt);
+            }
+        }
+        set_encoding(0);
         total.count("nontrivial", nt.len() as u64);
         total.sample(describe(&families()[7].1, 6, 16, (3, true), cfgs[0], true));
-        total.bound = format!("{} parameterised families with up to 8 rules (chains 1..5 with every wrong-valued link, diamond, shared sub-goal, dead end first, wrong value first, 2-/3-cycles), loaded through the GRL parser x every initial fact set x every goal x {} configurations", families().len(), cfgs.len());
+        total.bound = format!("{} parameterised families with up to 8 rules (chains 1..5 with every wrong-valued link, diamond, shared sub-goal, dead end first, wrong value first, an already-true conjunct before / after a derived one, 2-/3-cycles), loaded through the GRL parser x every initial fact set x every goal x {} configurations; and again (GRL and builder) with the truth of a field written as the integers 5 / 0, as the strings \"on\" / \"off\", as the strings \"a >= b\" / \"no\", and with only the never-derived fields written as integers (boolean heads and goals)", families().len(), cfgs.len());
         total.wall_s = t0.elapsed().as_secs_f64();
         out.push(total);
     }
@@ -537,6 +650,8 @@ pub fn replay_mode(case: &serde_json::Value, mode: Mode) -> crate::props::Replay
     let goal = (case["goal_idx"][0].as_u64().unwrap_or(0) as usize, case["goal_idx"][1].as_u64().unwrap_or(1) == 1);
     let cfg = Cfg { strategy: case["config"]["strategy"].as_u64().unwrap_or(0) as u8, max_depth: case["config"]["max_depth"].as_u64().unwrap_or(6) as usize, max_solutions: case["config"]["max_solutions"].as_u64().unwrap_or(1) as usize, with_rete: case["config"]["with_rete"].as_bool().unwrap_or(false), quoted_goal: case["config"]["quoted_goal"].as_bool().unwrap_or(false) };
     let via_grl = case["via_grl"].as_bool().unwrap_or(false);
+    set_encoding(case["encoding"].as_u64().unwrap_or(0) as u8);
+    INT_FIELDS.store(case["int_fields"].as_u64().unwrap_or(0) as u32, std::sync::atomic::Ordering::SeqCst);
     let kb = kb_of(&prog, via_grl);
     let hist = vec![format!("rules: {:?}", case["rules"]), format!("initial facts true: {:?}", case["initial_true"]), format!("query `{}` with {}", case["goal"].as_str().unwrap_or(""), cfg.name())];
     // candidate order comes from a HashSet: repeat
